@@ -18,3 +18,12 @@ def split_state(row, n):
 
 def spec_split(row):
     return split_state(row, len(row))[0]
+
+
+def cell_of(cell, col, indent):
+    # blanks (not line feeds) around the cell text are removed; the column is that of the first non-blank
+    return {"column": col + indent + lead_blank(cell), "text": strip_blank(cell)}
+
+
+def spec_cells(line_trimmed, indent):
+    return [cell_of(p[0], p[1], indent) for p in spec_split(strip(line_trimmed))]
